@@ -19,6 +19,14 @@ Theorem C16_discrete_geodesic : forall (St : Type) (dist : St -> St -> R) (inter
 Proof. exact discrete_geodesic_spec. Qed.
 Print Assumptions C16_discrete_geodesic.
 
+(* interpolation: ConstrainedStateSpace::geodesicInterpolate returns, for every fraction t >= 0, one of the states of
+   the geodesic it is given (it never reads outside the vector), so ConstrainedStateSpace::interpolate returns `from'
+   or a state of a successful geodesic: by the theorem above a successful projection, i.e. a state on the manifold *)
+Theorem C16_interpolation_returns_a_geodesic_state : forall (St : Type) (dist : St -> St -> R) (g : list St) (t : R),
+  g <> [] -> 0 <= t -> exists s, geodesic_interpolate ReG St dist Rminus Rabs 1 g t = Some s /\ In s g.
+Proof. exact geodesic_interpolate_in. Qed.
+Print Assumptions C16_interpolation_returns_a_geodesic_state.
+
 (* non-vacuity: the binary64 instance on the plane x2 = 0 *)
 From Coq Require Import Floats.
 From OmplV Require Import ConstraintRun.
